@@ -16,6 +16,28 @@ from sim.engines import render as R
 NOISE = ["nz0", "nz1"]
 
 
+# what the library says when the reference model raises for this reason (used only to recognise a known finding whose
+# visible effect is an error: the misplaced variable decided an {% if %} around a {% fill %} during fill discovery)
+REASON_TEXT = {
+    "fill outside component body": "cannot be rendered outside of a Component context",
+    "text beside fills": "Explicit 'fill' tags cannot occur alongside other text",
+    "duplicate fill": "Multiple fill tags cannot target the same slot name",
+    "slot filled twice": "was filled twice",
+    "required slot unfilled": "is marked as 'required'",
+}
+
+
+def same_as(real, q):
+    """Does the real result equal, exactly, what the reference model with a quirk switched on predicts?"""
+    if q[0] == "ok":
+        return real[0] == "ok" and R.normalise(real[1]) == q[1]
+    if q[0] == "err" and real[0] == "err" and real[1] == q[1]:
+        for reason, text in REASON_TEXT.items():
+            if str(q[2]).startswith(reason):
+                return text in real[2]
+    return False
+
+
 def default_params(tier):
     p = progmod.default_params(tier, collide=True, forbid=["provide", "inject_default", "negative"])
     p["budget_mult"] = 5000
@@ -131,19 +153,14 @@ def run(ch, params, decoded=False):
         bad = R.compare(real if real[0] != "err" else (real[0], real[1], real[2], None), exp["result"])
         if bad:
             cls, fp = "SCOPE-" + bad[0], [variant, bad[0], bad[1]]
-            if bad[0] == "OUTPUT" and variant == "tag":
+            if bad[0] in ("OUTPUT", "EXCEPTION", "MISSING-ERROR") and variant == "tag":
                 # diagnosis: is this exactly the behaviour of known finding F7 (and nothing else)?
-                q = ref.run_model(prog, quirks=["forloop_layer"])["result"]
-                if q[0] == "ok" and real[0] == "ok" and R.normalise(real[1]) == q[1]:
+                if same_as(real, ref.run_model(prog, quirks=["forloop_layer"])["result"]):
                     cls, fp = "SCOPE-LOOPVAR-VISIBLE-IN-ISOLATED-COMPONENT", ["isolated-component-sees-enclosing-loop-variable"]
-                else:
-                    q = ref.run_model(prog, quirks=["extra_context_as_code"])["result"]
-                    if q[0] == "ok" and real[0] == "ok" and R.normalise(real[1]) == q[1]:
-                        cls, fp = "SCOPE-FILL-CAPTURED-VARIABLES-MISORDERED", ["fill-captured-variables-misordered"]
-                    else:
-                        q = ref.run_model(prog, quirks=["forloop_layer", "extra_context_as_code"])["result"]
-                        if q[0] == "ok" and real[0] == "ok" and R.normalise(real[1]) == q[1]:
-                            cls, fp = "SCOPE-F7-AND-F15-COMPOSED", ["loop-layer-forwarding-composed-with-captured-variable-merging"]
+                elif same_as(real, ref.run_model(prog, quirks=["extra_context_as_code"])["result"]):
+                    cls, fp = "SCOPE-FILL-CAPTURED-VARIABLES-MISORDERED", ["fill-captured-variables-misordered"]
+                elif same_as(real, ref.run_model(prog, quirks=["forloop_layer", "extra_context_as_code"])["result"]):
+                    cls, fp = "SCOPE-F7-AND-F15-COMPOSED", ["loop-layer-forwarding-composed-with-captured-variable-merging"]
             v = {"class": cls, "fingerprint": fp, "detail": {"variant": variant, "what": bad[2]}}
             v["known"] = findings.classify("C03", v, prog)
             violations.append(v)
